@@ -60,6 +60,19 @@ def run(chk):
     from harness.checks.C14 import derive_suite
     derive_suite(chk, drv, 400 if chk.tier == 'quick' else 4000, 'C15')      # incl. the default bound 2 * n_jobs * ceil(chunk size)
     scs = look_scenarios(rng, 400 if chk.tier == 'quick' else 6000)
+    # a lazy call that is closed after a result or two (or whose input raises half-way), then another call on the same pool: the look-ahead
+    # of the second call is its own — it neither stalls nor runs ahead because of what the first one left
+    ab = []
+    for _ in range(40 if chk.tier == 'quick' else 600):
+        nj = rng.choice([1, 2, 3])
+        first = {'op': rng.choice(['imap_unordered', 'imap']), 'n': rng.randint(4 * nj, 8 * nj), 'chunk_size': rng.choice([1, 2]), 'consume': rng.randint(1, 2), 'abandon': 'close',
+                 'dur': {'kind': 'hash', 'salt': rng.randint(0, 99), 'unit': 0.01}}
+        second = {'op': rng.choice(['imap_unordered', 'map_unordered', 'map', 'imap']), 'n': rng.randint(3 * nj, 8 * nj), 'chunk_size': rng.choice([1, 2]),
+                  'max_tasks_active': rng.choice([None, 1, 2, nj + 1])}
+        ab.append({'seed': rng.randint(0, 10 ** 6), 'pool': {'n_jobs': nj, 'start_method': rng.choice(['fork', 'threading']), **({'keep_alive': True} if rng.random() < .5 else {})},
+                   'ops': [first, second], 'relax_shape': True})
+    run_scenarios(chk, 'a call after a lazy call that was closed early (DetSim)', ab, {'C15', 'C03', 'C01'}, nontrivial=lambda sc, o: True,
+                  dist=lambda sc, o: {'second': sc['ops'][1]['op'], 'keep_alive': bool(sc['pool'].get('keep_alive'))})
     obs = run_scenarios(chk, 'imap_unordered with counting input and pausing consumer under DetSim', scs, {'C15', 'C03'},
                         nontrivial=lambda sc, o: sc['ops'][0]['n'] >= 4,
                         dist=lambda sc, o: {'bound_vs_chunk': 'default' if sc['ops'][-1].get('max_tasks_active') is None else
